@@ -521,6 +521,92 @@ fn cmd_wrap(args: &[String]) -> i32 {
     0
 }
 
+fn chars_json(t: &str) -> J {
+    J::Array(t.chars().map(|c| J::String(c.to_string())).collect())
+}
+
+/// C15: completion output of the real shells' revisions next to the candidates computed at revision 0
+fn cmd_shell(args: &[String]) -> i32 {
+    let defs = arg_val(args, "--defs").map(|p| load_defs(&p)).unwrap_or_default();
+    let cases = arg_val(args, "--cases").expect("--cases");
+    let out = arg_val(args, "--out").expect("--out");
+    let mut cache = Cache::new(defs);
+    let mut w = BufWriter::new(std::fs::File::create(&out).unwrap());
+    let rd = BufReader::new(std::fs::File::open(&cases).unwrap());
+    let mut n = 0u64;
+    for l in rd.lines() {
+        let l = l.unwrap();
+        if l.trim().is_empty() {
+            continue;
+        }
+        let case: J = serde_json::from_str(&l).unwrap();
+        let argv = concretize(&case["argv"]);
+        let (b, _) = cache.get(&case);
+        let b = match b {
+            Ok(b) => b,
+            Err(_) => continue,
+        };
+        let r0 = run(b, &argv, &RunOpts { name: Some(APP), comp: Some(0) });
+        if r0.class != "completion" {
+            writeln!(w, "{}", json!({"def": case["def"], "argv": case["argv"], "shell": "rev0", "class": r0.class, "text": r0.text})).unwrap();
+            continue;
+        }
+        // candidates and shell completers at revision 0
+        let mut items: Vec<(String, String, String)> = Vec::new();
+        let mut nfiles = 0;
+        let mut echo: Option<String> = None;
+        let mut multiline = argv.last().map_or(false, |a| a.to_string_lossy().contains('\n'));
+        let has_ops = r0.text.contains("{ mask") || r0.text.contains("Nothing") || r0.text.contains("Raw {");
+        if !r0.text.contains('\t') && !has_ops {
+            if r0.text.ends_with('\n') {
+                echo = Some(r0.text[..r0.text.len() - 1].to_string());
+            } else {
+                items.push((r0.text.clone(), r0.text.clone(), String::new()));
+            }
+        } else {
+            let mut in_ops = false;
+            for line in r0.text.split('\n') {
+                if in_ops {
+                    if line.starts_with("File") || line.starts_with("Dir") {
+                        nfiles += 1;
+                    }
+                } else if line.is_empty() {
+                    in_ops = true;
+                } else if !line.contains('\t') {
+                    multiline = true; // continuation of a help text that contains a line break
+                } else {
+                    let f: Vec<&str> = line.split('\t').collect();
+                    items.push((f[0].to_string(), f.get(1).unwrap_or(&"").to_string(), f.get(2).unwrap_or(&"").to_string()));
+                }
+            }
+        }
+        for (rev, shell) in [(1usize, "elvish"), (7, "zsh"), (8, "bash"), (9, "fish")] {
+            for named in [true, false] {
+                let o = run(b, &argv, &RunOpts { name: if named { Some(APP) } else { None }, comp: Some(rev) });
+                let mut its: Vec<J> = items.iter().map(|(s1, p1, _)| json!({"subst": chars_json(s1), "pretty": chars_json(p1)})).collect();
+                if let (Some(e), true) = (&echo, shell != "elvish") {
+                    its = vec![json!({"subst": chars_json(e), "pretty": chars_json(e)})];
+                }
+                let mut groups: Vec<J> = Vec::new();
+                for (_, _, g) in &items {
+                    if !g.is_empty() && !groups.contains(&chars_json(g)) {
+                        groups.push(chars_json(g));
+                    }
+                }
+                let lines: Vec<J> = o.text.split('\n').collect::<Vec<_>>().split_last().map(|(_, x)| x.to_vec()).unwrap_or_default()
+                    .iter().map(|ln| J::Array(ln.split('\t').map(chars_json).collect())).collect();
+                writeln!(w, "{}", json!({"def": case["def"], "argv": case["argv"], "shell": shell, "rev": rev, "named": named,
+                    "class": o.class, "text": o.text, "chars": chars_json(&o.text), "lines": lines,
+                    "items": its, "groups": groups, "nfiles": nfiles, "multiline": multiline})).unwrap();
+                n += 1;
+            }
+        }
+    }
+    w.flush().unwrap();
+    println!("{}", json!({"outputs": n}));
+    0
+}
+
 fn main() {
     std::panic::set_hook(Box::new(|_| {}));
     let args: Vec<String> = std::env::args().collect();
@@ -529,6 +615,7 @@ fn main() {
         Some("proc") => cmd_proc(&args[2..]),
         Some("render") => cmd_render(&args[2..]),
         Some("wrap") => cmd_wrap(&args[2..]),
+        Some("shell") => cmd_shell(&args[2..]),
         _ => {
             eprintln!("usage: harness replay --defs F --cases F --out F [--dump-obs F]");
             2
